@@ -747,6 +747,7 @@ func (fr *Frame) instr(in ssa.Instruction) {
 		if ex.sweepSafe {
 			ex.oblige("safe", "nil-map-write", fmt.Sprintf("(not (= %s 0))", m.T), fr.curReach, "assignment to entry in nil map", x.Pos(), []string{"C19"})
 		}
+		fr.orderFreeCheck(x, m.T)
 		if mu, ok := fr.guardedSource(x.Map, 0); ok {
 			ex.oblige("lock", "write-map", fmt.Sprintf("(= %s 2)", fr.heldTerm(mu)), fr.curReach, "guarded map written while holding the write lock", x.Pos(), []string{"C12", "C20"})
 		}
@@ -1324,5 +1325,27 @@ func (fr *Frame) returnSiteClauses(x *ssa.Return, rs []Val) {
 		}
 		ex.oblige("assert", fmt.Sprintf("return#%d.%d", ord, i+1), g, fr.curReach, "assertion at return: "+s.Cl.Src, x.Pos(), s.Cl.Prop)
 		ex.assume(g, fr.curReach)
+	}
+}
+
+// orderFreeCheck: inside a map-range loop declared "orderfree", writing the very map being ranged over makes the
+// result depend on Go's randomised iteration order (entries inserted during the loop may or may not be visited,
+// and later iterations observe earlier writes): obligation "the written map is not the ranged map".
+func (fr *Frame) orderFreeCheck(in ssa.Instruction, mapTerm string) {
+	ex := fr.ex
+	for _, li := range fr.loops {
+		if !li.body[in.Block()] || li.spec == nil || !li.spec.IsOrderFree {
+			continue
+		}
+		for b := range li.body {
+			for _, i2 := range b.Instrs {
+				if nx, ok := i2.(*ssa.Next); ok {
+					if it := fr.iters[nx.Iter]; it != nil && it.isMap {
+						ex.oblige("orderfree", fmt.Sprintf("loop%d-writes-ranged-map", li.ord), fmt.Sprintf("(not (= %s %s))", mapTerm, it.mref), fr.curReach,
+							"a loop over a map whose result must not depend on iteration order does not write the map it ranges over", in.Pos(), []string{"C13"})
+					}
+				}
+			}
+		}
 	}
 }
